@@ -125,6 +125,7 @@ def _ignored_child(draw):
         "formats": draw(gen.formats(2)),
         "middle": draw(st.lists(st.sampled_from(["sf_other", "sf_top", "folder", "put", "sf_skip", "sf_skip"]), min_size=1, max_size=3)),
         "n": draw(st.booleans()),
+        "pattern_n": draw(st.booleans()),  # the run that introduces the pattern is made with -n (after generations with directory hashes)
     }
 
 
@@ -152,7 +153,10 @@ def run_ignored_child(scn, ctx):
         for r in [skip if r == scn["skip"] else r for r in scn["order"]] + ([decoy] if decoy else []):
             res = w.create("R/" + r, ["md5"])
             require(res.exit_code == 0, "setup", res.brief(), res)
-        res = w.create("R", scn["formats"], extra=["-i", scn["pattern"]])
+        if scn.get("pattern_n"):
+            res = w.create("R", scn["formats"])
+            require(res.exc is None and res.exit_code == 0, "setup", res.brief(), res)
+        res = w.create("R", scn["formats"], extra=["-i", scn["pattern"]], flags=["-n"] if scn.get("pattern_n") else [])
         require(res.exc is None and res.exit_code == 0, "setup", res.brief(), res)
         k = 0
         for m in scn["middle"]:
